@@ -139,6 +139,25 @@ def gen(tp, feat, tier='quick'):
             bb = routines[b]['body']
             bb.insert(1 + tp.draw(len(bb)), ['spawn', c])
             routines[c]['seed'] = None
+    if feat.get('sends') and tp.draw(4) == 0:
+        # a bundle built once (a list of lists, some of them nested bundles)
+        # and sent again and again by one routine: the very same objects
+        r = tp.draw(n_r)
+        body = routines[r]['body']
+        if tp.draw(2):
+            els = [['M', tp.draw(1000)],
+                   ['B', tp.choice([0, 0.125, 0.25]),
+                    [['M', tp.draw(1000)],
+                     ['B', tp.choice([0.25, 1, 1.5]),
+                      [['M', tp.draw(1000)]]]]]]
+        else:
+            els = _gen_els(tp, 0)
+        at = 1
+        for _ in range(2 + tp.draw(2)):
+            at = at + tp.draw(len(body) - at + 1)
+            body.insert(at, ['bundle', tp.choice([None, 0, 0.125, 0.2]), els,
+                             'keep', 0])
+            at += 1
     return {'t0': T0, 'clocks': clocks, 'routines': routines}
 
 
@@ -343,6 +362,7 @@ class Interp:
         self.clocks = {'sys': sclk.SystemClock, 'app': sclk.AppClock}
         self.robj = {}
         self.conds = {}
+        self.kept = {}
         self.cflags = {}
         self.premade = {}
         self.flows = {}
@@ -496,6 +516,9 @@ class Interp:
                       lambda: self.addr.send_msg('/m', rid, st[1]))
         elif op == 'bundle':
             els = [mk_el(e, rid) for e in st[2]]
+            if len(st) > 3 and st[3] == 'keep':
+                # the user keeps the lists and sends the same objects again
+                els = self.kept.setdefault((rid, st[4], repr(st[2])), els)
             if len(st) > 3 and st[3] == 'bind':
                 self.send(rid, 'bundle', st[1], st[2],
                           lambda: self.bind_send(st[1], els))
